@@ -186,7 +186,7 @@ func (tt *TypeTable) structOf(t types.Type) *structInfo {
 	for i := 0; i < st.NumFields(); i++ {
 		f := st.Field(i)
 		fi := fieldInfo{name: f.Name(), typ: f.Type(), offset: off}
-		fi.acc = sym(fmt.Sprintf("S%d_%s.%s", id, nm, f.Name()))
+		fi.acc = sym(fmt.Sprintf("S%d_%s.%d%s", id, nm, i, f.Name()))
 		fi.sort = tt.sortOf(f.Type())
 		off += tt.slots(f.Type())
 		si.fields = append(si.fields, fi)
